@@ -479,7 +479,7 @@ func rulePar9(c *Ctx) {
 // R-PAR-10 --------------------------------------------------------------------
 
 func init() {
-	Register(&Rule{ID: "R-PAR-10", Props: []string{"C12"}, Floor: 1,
+	Register(&Rule{ID: "R-PAR-10", Props: []string{"C12", "C07"}, Floor: 1,
 		Doc:      "no piecewise unstable sort: inside a concurrent region (go operand / task-manager callback and its nested closures) sort.Sort / sort.Slice is never applied to a value built from a variable the region shares with its siblings (a captured slice, view or wrapper indexed by the task) — sort.Sort is unstable, so sorting task-sized pieces of one collection and merging them orders tied rows differently for every --cpu; the whole-view sort of ORDER BY (sort.Sort(view) outside any region) is the reference instance",
 		Controls: []string{"CtlPiecewiseSort"},
 		Run:      rulePar10})
@@ -760,7 +760,7 @@ func isEnclosing(outer, inner *ssa.Function) bool {
 // R-PAR-13 --------------------------------------------------------------------
 
 func init() {
-	Register(&Rule{ID: "R-PAR-13", Props: []string{"C12"}, Floor: 10,
+	Register(&Rule{ID: "R-PAR-13", Props: []string{"C12", "C07"}, Floor: 10,
 		Doc:      "the number of workers only decides how the work is split: a value derived from Flags.CPU or GoroutineTaskManager.Number is used in lib/query only as the cpu argument of the task manager's constructor, as a loop bound or allocation length over the workers, in the test `1 < Number` that chooses between spawning and running inline, and by the flag plumbing (SET / SHOW) — never in another branch condition (choosing an algorithm, an operand order or an output order by the number of goroutines makes the rows or their order depend on --cpu)",
 		Controls: []string{"CtlBranchOnCPU"},
 		Run:      rulePar13})
